@@ -335,3 +335,8 @@ def run(ck):
     # only if the dump / restore keeps the station mapping in registration order
     from .c09 import rule_station_order_roundtrip
     ck.attempt(rule_station_order_roundtrip, rid="C16.F7")
+    # the evaluator adds and subtracts Currents by the algebra's definition (self + other, self - other by station name); that the
+    # repository's Current implements exactly that - also on its shortcut paths - is C12's algebra rule, run here because the site tables
+    # are built with it (reports under its C12 ids)
+    from .c12 import rule_algebra
+    ck.attempt(rule_algebra)
